@@ -136,13 +136,13 @@ def judge(chk, p, e):
 
 
 def run(chk):
-    n = 120 if chk.tier == "quick" else 4000
+    n = 300 if chk.tier == "quick" else 4000
     chk.rule = ("random projects (uses/depends/selects graphs, providers) x one edit of a random selected module's local or export env (CFLAGS/DEFS, "
                 "single or list); (1) model correspondence on module envs + ninja file; (2) metamorphic on the implementation: compile statements "
                 "(text incl. object path and rule name, and the rule block) of every source outside the module (local) / outside the modules whose "
                 "import closure contains it (export) must be byte-identical, and the selection must not change; non-trivial = the edit is visible in "
                 "the module's own statements (and for export edits there is at least one user and one non-user); distinct by project+kind")
-    projcheck.campaign(chk, PROF, 150 if chk.tier == "quick" else 4000, OBS, None, lambda c, p, r, m: False, label="corr:")
+    projcheck.campaign(chk, PROF, 450 if chk.tier == "quick" else 4000, OBS, None, lambda c, p, r, m: False, label="corr:")
     jobs = [(projgen.gen_project(chk.seed + 500, i, PROF), chk.seed * 131 + i) for i in range(n)]
     jobs += [(graft_conditional(projgen.gen_project(chk.seed + 550, i, PROF), i), i, ("ctgt", "export")) for i in range(max(10, n // 10))]
     for p, e in common.parallel_map(worker, jobs):
